@@ -10,7 +10,7 @@ CONSTANTS
   TxSectionEndsAtReceipts = TRUE
   HashIndexExact = TRUE
   RevertDropsIndexes = TRUE
-  MaxReverts = 0
+  MaxReverts = 3
   MemoFamilies = {}
   MemoPurged = TRUE
 INIT MBTInit
